@@ -171,6 +171,9 @@ func (c *Ctx) prelude() string {
 	b.WriteString("(declare-sort Fn 0)\n(declare-sort Chan 0)\n(declare-sort F64 0)\n(declare-datatypes ((Unit 0)) (((unit))))\n")
 	b.WriteString("(declare-const nil_fn Fn)\n(declare-const nil_chan Chan)\n(declare-const box0 Box)\n")
 	b.WriteString("(declare-const alloc_0 Int)\n(assert (>= alloc_0 0))\n")
+	// the selector ref is unspecified on nil in SMT-LIB: pin it to a value no allocation has, so that a location
+	// computed from a nil pointer (on a path that never uses it) cannot coincide with a real object
+	b.WriteString("(assert (= (ref nil) (- 1)))\n")
 	return b.String()
 }
 
